@@ -155,6 +155,7 @@ def handle : List String → String
     | some fs => showNatList ((Phrase.compile (Phrase.analyse (fun w => w != 0) fs)).map (·.1))
     | none => "bad-op"
   | ["printl", lead, occ, w, k, items] => C16Chars.handlePrintList lead occ w k items
+  | ["printt", toks] => C16Chars.handlePrintTree toks
   | ["parse", h] => C16Chars.handleParse h
   | ["parsel", h] => C16Chars.handleParseLenient h
   | ["parse2", h] => C16Chars.handleParseBoth h
